@@ -7,6 +7,7 @@ import (
 
 	"verifharness/common"
 	"verifharness/hdr"
+	"verifharness/pow"
 )
 
 func main() {
@@ -34,6 +35,12 @@ func main() {
 func dispatch(prop, tier string, seed int64) int {
 	if _, ok := hdr.HistCheckFor(prop); ok {
 		return hdr.RunHist(prop, tier, seed)
+	}
+	switch prop {
+	case "C02":
+		return pow.RunC02(tier, seed)
+	case "C03":
+		return pow.RunC03(tier, seed, nil)
 	}
 	fmt.Printf("no check for %s\n", prop)
 	return 2
